@@ -1,5 +1,5 @@
 use std::borrow::Borrow;
-use std::collections::{HashMap, HashSet};
+use std::collections::{BTreeSet, HashMap, HashSet};
 
 use crate::builtin::optional::XOptionalType;
 use crate::builtin::sequence::XSequenceType;
@@ -57,7 +57,7 @@ impl From<Cell> for CellSpec {
     }
 }
 
-#[derive(Clone, Debug, Hash, Eq, PartialEq, Copy)]
+#[derive(Clone, Debug, Hash, Eq, PartialEq, Copy, Ord, PartialOrd)]
 pub(crate) struct ForwardRefRequirement {
     ancestor_height: ScopeDepth,
     ref_idx: usize,
@@ -145,7 +145,8 @@ pub struct CompilationScope<'p, W, R, T> {
     pub(crate) cells: IPush<Cell>,
     pub(crate) declarations: Vec<Declaration<W, R, T>>,
     forwards: Vec<ForwardRef>,
-    forward_requirements: HashSet<ForwardRefRequirement>,
+    // ordered: the forward reference an error names must not depend on hashing
+    forward_requirements: BTreeSet<ForwardRefRequirement>,
 
     /// name to cell
     variables: HashMap<Identifier, usize>,
